@@ -1,10 +1,13 @@
 mod appender;
 mod core_sim;
+mod directive_sim;
+mod fsites;
 mod driver;
 mod fw;
 mod rec;
 mod reclayer;
 mod registry_sim;
+mod reload_sim;
 mod sites;
 mod span_sim;
 mod stack;
@@ -15,7 +18,7 @@ use fw::{Engine, GenCtx};
 use serde_json::Value;
 use std::io::Read;
 
-static ENGINES: &[&(dyn Engine)] = &[&appender::AppenderEngine, &core_sim::CoreEngine, &registry_sim::RegistryEngine, &span_sim::SpanEngine, &stack_sim::StackEngine, &wrap_sim::WrapEngine];
+static ENGINES: &[&(dyn Engine)] = &[&appender::AppenderEngine, &core_sim::CoreEngine, &registry_sim::RegistryEngine, &span_sim::SpanEngine, &stack_sim::StackEngine, &wrap_sim::WrapEngine, &reload_sim::ReloadEngine, &directive_sim::DirectiveEngine];
 
 fn engine_for_prop(prop: &str) -> Option<&'static dyn Engine> {
     ENGINES.iter().copied().find(|e| e.props().contains(&prop))
@@ -35,6 +38,8 @@ fn budget(prop: &str) -> (u64, u64) {
         "C05" => (120_000, 2_500_000),
         "C07" => (100_000, 2_000_000),
         "C09" => (120_000, 2_500_000),
+        "C11" => (80_000, 1_500_000),
+        "C12" => (100_000, 2_000_000),
         "C06" => (120_000, 2_500_000),
         _ => (40_000, 1_000_000),
     }
